@@ -196,4 +196,3 @@ func runC09(c *fw.Case) {
 		c.Sample(wit("full+partial", len(chain)-1))
 	}
 }
-
